@@ -33,7 +33,7 @@ package routing
 //@ ensures forall a in 0..len(t.routes[key]): forall b in a..len(t.routes[key]): t.routes[key][a].Metric <= t.routes[key][b].Metric
 
 //@ func (*Table).AddRoute
-//@ prop C08 C10 C13 C15
+//@ prop C08 C10 C13 C14 C15
 //@ check lockset bounds
 //@ modifies *
 //@ after call String let k = $ret
@@ -47,6 +47,8 @@ package routing
 //@ at[C10] call (*Route).Clone#0 assert route.Sequence > r.Sequence || (route.Sequence == r.Sequence && route.Metric < r.Metric)
 //@ at[C10] call (*Route).Clone#1 assert forall j in 0..len(existing): existing[j].OriginAgent != route.OriginAgent
 //@ ensures result ==> route != nil && route.Network != nil
+//@ ensures[C14] !result && route != nil && route.Network != nil && !(exists j in 0..len(route.Path): route.Path[j] == t.localID) ==> exists j in 0..len(t.routes[k]): t.routes[k][j].OriginAgent == route.OriginAgent && !(route.Sequence > t.routes[k][j].Sequence || (route.Sequence == t.routes[k][j].Sequence && route.Metric < t.routes[k][j].Metric))
+//@ note C14: an announcement is refused (apart from a nil route or a path through this agent) only because a stored route of the same origin is at least as new and not worse: a strictly newer sequence number is always accepted, through whichever neighbour it arrives
 //@ note update rule: the first Clone is the replacement of the first stored entry r of the same origin and happens only for a newer sequence or an equal sequence with a strictly lower metric; the second Clone is the insertion, reached only when no stored entry has that origin
 
 //@ func (*Table).lookupUnlocked
@@ -156,7 +158,7 @@ package routing
 //@ at[C10] call (*DomainRoute).Clone#0 assert r.OriginAgent == route.OriginAgent && (route.Sequence > r.Sequence || (route.Sequence == r.Sequence && route.Metric < r.Metric))
 
 //@ func (*ForwardTable).AddRoute
-//@ prop C09 C10 C13 C15
+//@ prop C09 C10 C13 C14 C15
 //@ check lockset bounds
 //@ modifies *
 //@ loop 0 invariant -1 <= rangeindex && rangeindex < len(route.Path) && forall j in 0..rangeindex+1: route.Path[j] != t.localID
@@ -167,9 +169,10 @@ package routing
 //@ ensures[C09,C10] result ==> forall a in 0..len(t.routes[k]): forall b in a..len(t.routes[k]): t.routes[k][a].Metric <= t.routes[k][b].Metric
 //@ ensures[C10,C13,C15] result ==> exists j in 0..len(t.routes[k]): t.routes[k][j].OriginAgent == route.OriginAgent && t.routes[k][j].Metric == route.Metric && t.routes[k][j].NextHop == route.NextHop && t.routes[k][j].Sequence == route.Sequence && len(t.routes[k][j].Path) == len(route.Path)
 //@ at[C10] call (*ForwardRoute).Clone#0 assert r.OriginAgent == route.OriginAgent && (route.Sequence > r.Sequence || (route.Sequence == r.Sequence && route.Metric < r.Metric))
+//@ ensures[C14] !result && route != nil && route.Key != "" && !(exists j in 0..len(route.Path): route.Path[j] == t.localID) ==> exists j in 0..len(t.routes[route.Key]): t.routes[route.Key][j].OriginAgent == route.OriginAgent && !(route.Sequence > t.routes[route.Key][j].Sequence || (route.Sequence == t.routes[route.Key][j].Sequence && route.Metric < t.routes[route.Key][j].Metric))
 
 //@ func (*AgentTable).AddRoute
-//@ prop C09 C10 C13 C15
+//@ prop C09 C10 C13 C14 C15
 //@ check lockset bounds
 //@ modifies *
 //@ loop 0 invariant -1 <= rangeindex && rangeindex < len(route.Path) && forall j in 0..rangeindex+1: route.Path[j] != t.localID
@@ -180,6 +183,7 @@ package routing
 //@ ensures[C09,C10] result ==> forall a in 0..len(t.routes[k]): forall b in a..len(t.routes[k]): t.routes[k][a].Metric <= t.routes[k][b].Metric
 //@ ensures[C10,C13,C15] result ==> exists j in 0..len(t.routes[k]): t.routes[k][j].OriginAgent == route.OriginAgent && t.routes[k][j].Metric == route.Metric && t.routes[k][j].NextHop == route.NextHop && t.routes[k][j].Sequence == route.Sequence && len(t.routes[k][j].Path) == len(route.Path)
 //@ at[C10] call (*AgentRoute).Clone#0 assert r.OriginAgent == route.OriginAgent && r.NextHop == route.NextHop && (route.Sequence > r.Sequence || (route.Sequence == r.Sequence && route.Metric < r.Metric))
+//@ ensures[C14] !result && route != nil && !(exists j in 0..len(route.Path): route.Path[j] == t.localID) ==> exists j in 0..len(t.routes[route.AgentID]): t.routes[route.AgentID][j].OriginAgent == route.OriginAgent && t.routes[route.AgentID][j].NextHop == route.NextHop && !(route.Sequence > t.routes[route.AgentID][j].Sequence || (route.Sequence == t.routes[route.AgentID][j].Sequence && route.Metric < t.routes[route.AgentID][j].Metric))
 //@ note the agent-presence table keys entries by origin AND next hop (the code's rule), so several next hops for one agent coexist
 
 // ---- lookups (C09) ----
